@@ -797,7 +797,7 @@ func crossOps(seed uint64) []cop {
 // race storm, whose operations are spread over 64 + 32 objects, two calls are inside the same object at the same
 // moment almost all the time: "atomics only" memo fields that are published as two separate stores, single-flight
 // tables and per-object caches are race-detector clean and wrong only here.
-func hotStorm(c *core.Ctx, w *core.W) {
+func hotStorm(c *core.Ctx, w *core.W, only string, sink func(core.Violation)) {
 	const G = 16
 	iters := c.Scale(3000, 40000)
 	var mu sync.Mutex
@@ -807,7 +807,7 @@ func hotStorm(c *core.Ctx, w *core.W) {
 		defer mu.Unlock()
 		if reported[v.Eco+v.Args[0]] < 2 {
 			reported[v.Eco+v.Args[0]]++
-			w.Report(v)
+			sink(v)
 		}
 	}
 	storm := func(name, kind string, n int, want []string, call func(i int) string, arg func(i int) []string) {
@@ -845,6 +845,9 @@ func hotStorm(c *core.Ctx, w *core.W) {
 		mu.Unlock()
 	}
 	for _, name := range eco.Names() {
+		if only != "" && only != name {
+			continue
+		}
 		r := c.Rand("hot", name)
 		spec := buildShared(name, r, 48, 16)
 		if len(spec.vstr) < 8 {
@@ -899,6 +902,9 @@ func hotStorm(c *core.Ctx, w *core.W) {
 			}
 			storm(name, "NewVersionRange", nr, wantR, func(i int) string { return pr(sh.e, sh.vers, i) }, func(i int) []string { return []string{spec.rstr[i]} })
 		}
+	}
+	if only != "" && only != "vers" {
+		return
 	}
 	// one VERS body under all schemes at the same time
 	ops := crossOps(c.Seed)
@@ -1082,7 +1088,7 @@ func runC19(c *core.Ctx, ck *Check) {
 	}
 
 	// (1b) hot objects in the fast build
-	hotStorm(c, w)
+	hotStorm(c, w, "", func(v core.Violation) { w.Report(v) })
 
 	// (2) history independence: 8 shuffled orders here, once in a fresh process
 	hd := historyDigests(c.Seed, 8, 0)
@@ -1263,6 +1269,17 @@ func runC19(c *core.Ctx, ck *Check) {
 
 // evalC19 re-runs the sequential purity/history monitors for one ecosystem, or the race storm when op == "race".
 func evalC19(c *core.Ctx, e *eco.Eco, op string, args []string) []core.Violation {
+	if op == "hot-object" {
+		// re-run the storm for the ecosystem (or for vers) of the witness; interleavings differ from run to run
+		name := "vers"
+		if e != nil {
+			name = e.Name
+		}
+		var out []core.Violation
+		var mu sync.Mutex
+		hotStorm(c, c.NewW(), name, func(v core.Violation) { mu.Lock(); out = append(out, v); mu.Unlock() })
+		return out
+	}
 	if op == "history" {
 		// re-run the history differential: two orders here, one different order in a fresh process
 		var out []core.Violation
